@@ -134,6 +134,9 @@ func genSimCase(r *lib.RNG, name string, geth bool) *Case {
 	if !geth && r.Chance(1, 6) {
 		c.WatchFails = r.Range(1, 2)
 	}
+	if !geth && r.Chance(1, 3) {
+		c.TimeoutErrors = true
+	}
 	if !geth && r.Chance(1, 7) {
 		c.Mode = "oneshot"
 		finish(r, c)
@@ -534,6 +537,7 @@ func faultCases() []*Case {
 											LatestFail: lf, Fin1Fail: ff, FilterFailAt: fa, Fin2Fails: f2, WatchFails: wf,
 											PollMicros: 100, Canonical: true,
 											Ops: []Op{{Kind: "send", Logs: []Log{live}}, {Kind: "sync"}, {Kind: "fin", Fin: 7}, {Kind: "sync"}}}
+										c.TimeoutErrors = si == 1 // a third of the cases: the failures are expired call timeouts
 										c.Name = fmt.Sprintf("faults-%s-c%d-m%v-l%v-f%v-q%d-p%d-w%d-s%d", mode, cf, mm, lf, ff, fa, f2, wf, si)
 										out = append(out, c)
 									}
@@ -614,6 +618,16 @@ func boundaryCases() []*Case {
 		mk("stored-newer-than-scan", Case{Mode: "run", Chunk: 2, Latest: 9, Fin1: 6, Fin2: 6, Stored: &HeadJ{9, 9, 16}, StoredL1: 6,
 			Hist: []Log{big(7, 2), big(8, 4)}, // the node's history lacks the log the stored head came from
 			Ops:  []Op{{Kind: "sync"}, {Kind: "send", Logs: []Log{big(10, 8)}}, {Kind: "sync"}, {Kind: "fin", Fin: 8}, {Kind: "sync"}}}),
+		// the L1 node has not reported ANY finalised height yet (first read and six polls fail) while an
+		// event of L1 block 0 — at or below every height it could ever report — waits in the buffer
+		mk("no-finality-report-yet", Case{Mode: "run", Chunk: 3, Latest: 4, Fin1: 0, Fin2: 0, Fin1Fail: true,
+			Ops: []Op{{Kind: "finfail", N: 6}, {Kind: "send", Logs: []Log{big(3, 0), big(4, 2)}}, {Kind: "sync"}, {Kind: "fin", Fin: 2}, {Kind: "sync"}}}),
+		// the context ends while the client is still retrying: the subscription never succeeds (the
+		// catch-up has recorded a head by then) / the chain-id probe never answers (nothing is touched)
+		mk("never-subscribes", Case{Mode: "run", Chunk: 3, Latest: 4, Fin1: 2, Fin2: 3, WatchFails: neverSucceeds,
+			Hist: []Log{big(3, 1), big(4, 3), big(5, 4)}}),
+		mk("chain-id-never-answers", Case{Mode: "run", Chunk: 3, Latest: 4, Fin1: 2, Fin2: 3, ChainIDFails: neverSucceeds,
+			Stored: &HeadJ{2, 2, 9}, StoredL1: 0, Hist: []Log{big(3, 1), big(4, 3)}}),
 		mk("stored-older-than-scan", Case{Mode: "run", Chunk: 2, Latest: 9, Fin1: 6, Fin2: 6, Stored: &HeadJ{7, 7, 14}, StoredL1: 2,
 			Hist: []Log{big(7, 2), big(8, 4)}, Ops: []Op{{Kind: "sync"}}}),
 	}
@@ -691,4 +705,169 @@ func leadL11() *Case {
 	return &Case{Name: "lead-L11", Family: "chain", Mode: "run", FilterFailAt: -1, Canonical: true,
 		Chunk: 1000, Latest: 200, Fin1: 200, Fin2: 200, LatestFail: true, PollMicros: 100,
 		Ops: []Op{{Kind: "send", Logs: []Log{e100}}, {Kind: "sync"}, {Kind: "send", Logs: []Log{e90}}, {Kind: "sync"}}}
+}
+
+// ---- family "defaults": l1.NewClient WITHOUT WithCatchUpChunkSize (the node's configuration) ----
+// The scan runs with defaultCatchUpChunkSize = 1000: latest heights and log positions straddle every
+// chunk boundary of the first three chunks (from_k = latest + 1 - 1000k), the finalised height sits on,
+// just below and far above the log.
+
+func defaultChunkCases() []*Case {
+	var out []*Case
+	mkLog := func(l2, l1 uint64) Log { return Log{L2: l2, Hash: l2*16 + 1, Root: l2*16 + 0x1001, L1: l1} }
+	add := func(name string, c Case) {
+		c.Name, c.Family, c.FilterFailAt, c.Canonical = "defaults-"+name, "defaults", -1, true
+		c.DefaultChunk, c.Chunk, c.PollMicros = true, 1000, 100
+		out = append(out, &c)
+	}
+	for _, latest := range []uint64{0, 1, 998, 999, 1000, 1001, 1998, 1999, 2000, 2001, 2999, 3000, 3001} {
+		seen := map[uint64]bool{}
+		var xs []uint64
+		try := func(x uint64, ok bool) {
+			if ok && x <= latest+1 && !seen[x] {
+				seen[x] = true
+				xs = append(xs, x)
+			}
+		}
+		try(0, true)
+		try(latest, true)
+		try(latest+1, true) // beyond `latest`: must not be picked up
+		for k := uint64(1); k <= 3; k++ {
+			if latest+1 >= 1000*k {
+				f := latest + 1 - 1000*k // first block of chunk k
+				try(f, true)
+				try(f+1, true)
+				try(f-1, f > 0)
+			}
+		}
+		for _, x := range xs {
+			fins := []uint64{x, latest}
+			if x > 0 {
+				fins = append(fins, x-1)
+			}
+			for _, fin := range fins {
+				if fin > latest {
+					continue
+				}
+				add(fmt.Sprintf("one-%d-%d-%d", latest, x, fin), Case{Mode: "oneshot", Latest: latest, Fin1: fin, Fin2: fin,
+					Hist: []Log{mkLog(7, x)}})
+			}
+			// a finalised log directly below a not yet finalised one: the scan has to pass the upper one
+			if x+1 <= latest {
+				add(fmt.Sprintf("two-%d-%d", latest, x), Case{Mode: "oneshot", Latest: latest, Fin1: x, Fin2: x,
+					Hist: []Log{mkLog(7, x), mkLog(8, x+1)}})
+			}
+		}
+		// a failing log query in every position of the scan to genesis (no log at all)
+		for q := 0; q <= int(latest/1000); q++ {
+			c := Case{Mode: "oneshot", Latest: latest, Fin1: 0, Fin2: 0}
+			add(fmt.Sprintf("fail-%d-%d", latest, q), c)
+			out[len(out)-1].FilterFailAt = q
+		}
+	}
+	// a log in EVERY L1 block of three default-sized chunks, served by the fake node through the real
+	// FilterStateUpdate (and by the scripted provider): whatever range an implementation skips,
+	// truncates or splits wrongly has a log in it
+	for _, geth := range []bool{false, true} {
+		var hist []Log
+		for b := uint64(0); b <= 2100; b++ {
+			hist = append(hist, mkLog(b+1, b))
+		}
+		add(fmt.Sprintf("dense-geth%v", geth), Case{Mode: "run", Latest: 2100, Fin1: 30, Fin2: 30, Hist: hist, Geth: geth,
+			PollMicros: 300, Ops: []Op{{Kind: "sync"}, {Kind: "fin", Fin: 1500}, {Kind: "sync"}, {Kind: "fin", Fin: 2100}, {Kind: "sync"}}})
+		out[len(out)-1].PollMicros = 300
+	}
+	// the whole life with the defaults: scan (two chunks), then live updates
+	for _, latest := range []uint64{999, 1000, 2000} {
+		add(fmt.Sprintf("run-%d", latest), Case{Mode: "run", Latest: latest, Fin1: 5, Fin2: 5,
+			Hist: []Log{mkLog(3, 4), mkLog(4, latest)},
+			Ops: []Op{{Kind: "sync"}, {Kind: "send", Logs: []Log{mkLog(5, latest+1)}}, {Kind: "sync"},
+				{Kind: "fin", Fin: latest}, {Kind: "sync"}, {Kind: "fin", Fin: latest + 1}, {Kind: "sync"}}})
+	}
+	return out
+}
+
+// ---- family "burst": bursts that straddle the capacity of the client's update channel (128) and of
+// the geth forwarder's channel (64), delivered while the client sits in finalisedHeight's retry loop ----
+
+func burstCases() []*Case {
+	var out []*Case
+	mk := func(l2, l1, fork uint64) Log { return Log{L2: l2, Hash: l2*16 + fork, Root: l2*16 + fork + 0x1000, L1: l1} }
+	for _, n := range []int{63, 64, 65, 127, 128, 129, 130, 257} {
+		for _, geth := range []bool{false, true} {
+			if geth && n != 64 && n != 65 && n != 129 {
+				continue
+			}
+			c := &Case{Name: fmt.Sprintf("burst-%d-geth%v", n, geth), Family: "burst", Mode: "run", FilterFailAt: -1, Canonical: true,
+				Chunk: 1000, Latest: 9, Fin1: 9, Fin2: 9, PollMicros: 200, Geth: geth}
+			c.Hist = []Log{mk(1, 3, 0)}
+			var burst []Log
+			plain := n - 6 // the burst is exactly n values long: plain logs, three removal notices, three replacements
+			for i := 0; i < plain; i++ {
+				burst = append(burst, mk(uint64(2+i), uint64(10+i), 0))
+			}
+			// the last three blocks are reorged away inside the same burst and replaced
+			last := uint64(10 + plain - 1)
+			for b := last; b > last-3; b-- {
+				r := mk(uint64(2)+b-10, b, 0)
+				r.Removed = true
+				burst = append(burst, r)
+			}
+			for b := last - 2; b <= last; b++ {
+				burst = append(burst, mk(uint64(2)+b-10, b, 1))
+			}
+			mid := uint64(10 + plain/2)
+			if geth {
+				c.Family = "geth"
+				c.Ops = []Op{{Kind: "sync"}, {Kind: "send", Logs: burst}, {Kind: "sync"}}
+			} else {
+				c.Ops = []Op{{Kind: "sync"}, {Kind: "finfail", N: 600}, {Kind: "waitfinerr"}, {Kind: "send", Logs: burst}, {Kind: "sync"}}
+			}
+			c.Ops = append(c.Ops, Op{Kind: "fin", Fin: mid}, Op{Kind: "sync"}, Op{Kind: "fin", Fin: last - 1}, Op{Kind: "sync"},
+				Op{Kind: "fin", Fin: last + 5}, Op{Kind: "sync"})
+			out = append(out, c)
+		}
+	}
+	return out
+}
+
+// ---- family "stall": the client's event loop is busy (its finalised-height query keeps failing, so it
+// sits in finalisedHeight's retry loop and does not read its channel) while the L1 node pushes a burst
+// larger than everything that can be buffered between the real forwardStateUpdates and the client
+// (128-slot channel + the harness tap's 2 slots): the real forwarder is blocked in its hand-off for
+// holdMs. Then the client resumes. Every log must still arrive, once and in order, and the newest —
+// finalised at the end — must become the head.
+
+func stallCases(longHoldMs int) []*Case {
+	var out []*Case
+	mk := func(l2, l1, fork uint64) Log { return Log{L2: l2, Hash: l2*16 + fork, Root: l2*16 + fork + 0x1000, L1: l1} }
+	type v struct{ n, holdMs, resub int }
+	vs := []v{{300, longHoldMs, 20000}}
+	for _, n := range []int{129, 130, 131, 132, 194, 195, 196, 256, 1000} {
+		vs = append(vs, v{n, 150, 2000})
+	}
+	for _, x := range vs {
+		c := &Case{Name: fmt.Sprintf("stall-%d-hold%dms", x.n, x.holdMs), Family: "stall", Mode: "run", FilterFailAt: -1, Canonical: true,
+			Chunk: 1000, Latest: 9, Fin1: 9, Fin2: 9, PollMicros: 300, Geth: true, ResubMicros: x.resub}
+		c.Hist = []Log{mk(1, 3, 0)}
+		var burst []Log
+		plain := x.n - 6
+		for i := 0; i < plain; i++ {
+			burst = append(burst, mk(uint64(2+i), uint64(10+i), 0))
+		}
+		last := uint64(10 + plain - 1)
+		for b := last; b > last-3; b-- { // the newest three blocks are reorged away and replaced
+			r := mk(uint64(2)+b-10, b, 0)
+			r.Removed = true
+			burst = append(burst, r)
+		}
+		for b := last - 2; b <= last; b++ {
+			burst = append(burst, mk(uint64(2)+b-10, b, 1))
+		}
+		c.Ops = []Op{{Kind: "sync"}, {Kind: "finfail", N: 1 << 30}, {Kind: "waitfinerr"}, {Kind: "push", Logs: burst},
+			{Kind: "waitfill", N: x.n}, {Kind: "hold", N: x.holdMs}, {Kind: "finfail", N: 0}, {Kind: "drainwait"}, {Kind: "sync"},
+			{Kind: "fin", Fin: uint64(10 + plain/2)}, {Kind: "sync"}, {Kind: "fin", Fin: last + 5}, {Kind: "sync"}}
+		out = append(out, c)
+	}
+	return out
 }
